@@ -511,6 +511,7 @@ def checkStep (e : Env) (pre : Sys) (op : Op) (res : Res) (post : Sys) (origin :
     let chosenBySelection := match op with
       | .store _ => true
       | .ready .. => true
+      | .migrate .. => true
       | .end_ => true
       | _ => false
     if !chosenBySelection then [] else
@@ -522,6 +523,7 @@ def checkStep (e : Env) (pre : Sys) (op : Op) (res : Res) (post : Sys) (origin :
       let requested : Int := match op with
         | .store m => m.p.replica
         | .ready .. => ((pre.st.getOrder oid).map (·.replica)).getD 0
+        | .migrate .. => (mine.length : Int)     -- one destination per migrated shard: only distinctness and eligibility apply
         | _ => ((pre.st.shards.filter (fun sh => sh.orderId = oid && sh.status = ShardWaiting)).length : Int)
       let over := (mine.length : Int) > requested
       -- an update of stored data first re-uses the providers that already hold it: those are not newly chosen
